@@ -87,6 +87,9 @@ def in_range(i0, i1, i2, n0, n1, d0, d1, s0, s1, s2):
                 ok = False
             ii += 1
         elif s == "I":
+            box = PARAMS.get("ibox")
+            if box is not None and not (box[0] <= ints[ii] <= box[1]):
+                ok = False
             ii += 1
         elif s == "S":
             if len(strs[ss]) > L:
